@@ -102,6 +102,10 @@ class Scratch:
                 if rel in old and old[rel] != h:
                     os.utime(p, (now, now))
         write_json(man_path, new)
+        # one hash over every source file: exported as VERIF_SRC_HASH to rustc (the contract files read it with
+        # option_env!), so cargo's env tracking forces a rebuild whenever any source differs from the last build
+        self.src_hash = hashlib.sha256(json.dumps(sorted(new.items())).encode()).hexdigest()[:16]
+        os.environ["VERIF_SRC_HASH"] = self.src_hash
 
     def file(self, rel):
         return os.path.join(self.path, rel)
